@@ -165,12 +165,277 @@ theorem push_spec (b : Bitmap) (h : b.WF) (v : Nat) (hv : v < 4294967296) :
             · simp at hd; subst hd; exact h3) x hx
           unfold hi16 lo16 at *; omega
 
+/-! ### insert_range -/
+
+theorem filter_three (s : List Nat) (a b : Nat) (hab : a ≤ b) :
+    (s.filter (· < a)).length + (s.filter (fun x => decide (a ≤ x) && decide (x ≤ b))).length +
+      (s.filter (b < ·)).length = s.length := by
+  induction s with
+  | nil => rfl
+  | cons y s ih =>
+    simp only [List.filter_cons, List.length_cons]
+    by_cases h1 : y < a
+    · have h2 : ¬ a ≤ y := by omega
+      have h3 : ¬ b < y := by omega
+      simp [h1, h2, h3]; omega
+    · have h2 : a ≤ y := by omega
+      by_cases h3 : b < y
+      · have h4 : ¬ y ≤ b := by omega
+        simp [h1, h2, h3, h4]; omega
+      · have h4 : y ≤ b := by omega
+        simp [h1, h2, h3, h4]; omega
+
+/-- the count returned by `insertIv` is the growth of the set -/
+theorem insertIv_length (s : List Nat) (hs : Sorted s) (a b : Nat) (hab : a ≤ b) :
+    (Spec.insertIv s a b).1.length = s.length + (Spec.insertIv s a b).2 := by
+  simp only [Spec.insertIv, List.length_append, List.length_range']
+  have h3 := filter_three s a b hab
+  have hb := (Arr.sorted_bounded_length (s.filter (fun x => decide (a ≤ x) && decide (x ≤ b)))
+    (Spec.sorted_filter s hs _) a (b - a + 1) (by
+      intro x hx
+      simp only [List.mem_filter, Bool.and_eq_true, decide_eq_true_eq] at hx
+      omega)).1
+  omega
+
+/-- inserting `[a, m]` then `[m+1, b]` is inserting `[a, b]` -/
+theorem insertIv_comp (s : List Nat) (hs : Sorted s) (a m b : Nat) (h1 : a ≤ m) (h2 : m + 1 ≤ b) :
+    (Spec.insertIv (Spec.insertIv s a m).1 (m + 1) b).1 = (Spec.insertIv s a b).1 ∧
+    (Spec.insertIv s a m).2 + (Spec.insertIv (Spec.insertIv s a m).1 (m + 1) b).2 = (Spec.insertIv s a b).2 := by
+  have hs1 := Spec.sorted_insertIv s hs a m h1
+  have e : (Spec.insertIv (Spec.insertIv s a m).1 (m + 1) b).1 = (Spec.insertIv s a b).1 := by
+    apply Arr.sorted_ext _ _ (Spec.sorted_insertIv _ hs1 _ _ h2) (Spec.sorted_insertIv s hs a b (by omega))
+    intro x
+    rw [Spec.mem_insertIv _ _ _ _ h2, Spec.mem_insertIv _ _ _ _ h1, Spec.mem_insertIv _ _ _ _ (by omega)]
+    constructor
+    · rintro (h | h | h)
+      · left; omega
+      · left; omega
+      · right; exact h
+    · rintro (h | h)
+      · by_cases hx : x ≤ m
+        · right; left; omega
+        · left; omega
+      · right; right; exact h
+  refine ⟨e, ?_⟩
+  have l1 := insertIv_length s hs a m h1
+  have l2 := insertIv_length _ hs1 (m + 1) b h2
+  have l3 := insertIv_length s hs a b (by omega)
+  rw [e] at l2
+  omega
+
+/-- `insert_range` on one chunk -/
+theorem upsert_insertRange_spec (b : Bitmap) (h : b.WF) (k lo hi : Nat) (hk : k < 65536) (hlh : lo ≤ hi)
+    (hhi : hi < 65536) :
+    (upsert k (fun c => c.insertRange lo hi) b).1.WF ∧
+    elems (upsert k (fun c => c.insertRange lo hi) b).1 =
+      (Spec.insertIv (elems b) (k * 65536 + lo) (k * 65536 + hi)).1 ∧
+    (upsert k (fun c => c.insertRange lo hi) b).2 =
+      (Spec.insertIv (elems b) (k * 65536 + lo) (k * 65536 + hi)).2 := by
+  have hdir := h.dir
+  obtain ⟨c0, k0, cn0, e0, r0, d0, ch0, m0⟩ :=
+    upsert_spec k hk (fun c => c.insertRange lo hi)
+      (fun c hck hc => ⟨hck ▸ (Container.insertRange_spec c (Store.canon_inv _ hc) lo hi hlh hhi).1,
+        (Container.insertRange_spec c (Store.canon_inv _ hc) lo hi hlh hhi).2.1⟩) b hdir
+  obtain ⟨_, i2, i3, i4⟩ := Container.insertRange_spec c0 (Store.canon_inv _ cn0) lo hi hlh hhi
+  refine ⟨?_, ?_, ?_⟩
+  · apply wf_of_dir _ d0
+    intro d hd
+    rcases m0 d hd with hd' | hd'
+    · rw [hd']; intro hc
+      have := (i3 lo).mpr (Or.inl ⟨Nat.le_refl _, hlh⟩)
+      rw [hc] at this; simp at this
+    · exact h.ne d hd'
+  · apply Arr.sorted_ext _ _ (sorted_elems _ d0)
+      (Spec.sorted_insertIv _ (sorted_elems b hdir) _ _ (by omega))
+    intro y
+    rw [mem_of_chunk_update b _ hdir d0 k _ ch0 y, Spec.mem_insertIv _ _ _ _ (by omega)]
+    simp only [i3, e0]
+    rw [mem_elems b hdir]
+    constructor
+    · rintro (⟨h1, h2 | h2⟩ | ⟨h1, h2⟩)
+      · left; omega
+      · right; rw [h1]; exact h2
+      · right; exact h2
+    · rintro (h1 | h2)
+      · left; exact ⟨by omega, Or.inl (by omega)⟩
+      · by_cases hc : y / 65536 = k
+        · left; exact ⟨hc, Or.inr (hc ▸ h2)⟩
+        · right; exact ⟨hc, h2⟩
+  · rw [r0, i4, e0]
+    simp only [Spec.insertIv]
+    have hcnt : Store.countIn (chunk b k) lo hi =
+        ((elems b).filter (fun x => decide (k * 65536 + lo ≤ x) && decide (x ≤ k * 65536 + hi))).length := by
+      have : (elems b).filter (fun x => decide (k * 65536 + lo ≤ x) && decide (x ≤ k * 65536 + hi)) =
+          ((chunk b k).filter (fun x => decide (lo ≤ x) && decide (x ≤ hi))).map (fun i => k * 65536 + i) := by
+        apply Arr.sorted_ext _ _ (Spec.sorted_filter _ (sorted_elems b hdir) _) ?_
+        · intro y
+          simp only [List.mem_filter, List.mem_map, Bool.and_eq_true, decide_eq_true_eq]
+          rw [mem_elems b hdir]
+          constructor
+          · rintro ⟨hy, h1, h2⟩
+            have : y / 65536 = k := by omega
+            rw [this] at hy
+            exact ⟨y % 65536, ⟨hy, by omega, by omega⟩, by omega⟩
+          · rintro ⟨x, ⟨hx, h1, h2⟩, rfl⟩
+            have e1 : (k * 65536 + x) / 65536 = k := by omega
+            have e2 : (k * 65536 + x) % 65536 = x := by omega
+            rw [e1, e2]; exact ⟨hx, by omega, by omega⟩
+        · rw [Sorted, List.pairwise_map]
+          exact List.Pairwise.imp (by intro a b hab; omega)
+            (Spec.sorted_filter _ (chunk_sorted b hdir k) _)
+      rw [this, List.length_map]; rfl
+    rw [hcnt]
+    have : k * 65536 + hi - (k * 65536 + lo) = hi - lo := by omega
+    rw [this]
+
+/-- the (possibly empty) container `find_container_by_key` leaves behind is found again by `upsert` -/
+theorem upsert_find {α : Type} (key : Nat) (g : Container → Container × α) (b : Bitmap) :
+    upsert key g (findContainerByKey b key).1 = upsert key g b := by
+  induction b with
+  | nil => simp [findContainerByKey, search_nil, upsert, Container.new]
+  | cons c cs ih =>
+    unfold findContainerByKey at ih ⊢
+    rw [search_cons]
+    by_cases h1 : c.key < key
+    · simp only [h1, if_true]
+      cases hs : search cs key with
+      | mk f loc =>
+        rw [hs] at ih
+        cases f with
+        | true => rfl
+        | false =>
+          simp only [List.take_succ_cons, List.drop_succ_cons, List.cons_append] at ih ⊢
+          conv => lhs; unfold upsert
+          conv => rhs; unfold upsert
+          simp only [h1, if_true]
+          rw [ih]
+    · simp only [h1, if_false]
+      by_cases h2 : c.key = key
+      · simp [h2]
+      · have h2' : (c.key == key) = false := by simp [h2]
+        simp only [h2', List.take_zero, List.drop_zero, List.nil_append]
+        conv => lhs; unfold upsert
+        conv => rhs; unfold upsert
+        simp [h1, h2, Container.new]
+
+/-- one iteration of the `for i in start_container_key..end_container_key` loop -/
+def irStep (st : Bitmap × Nat × Nat) (i : Nat) : Bitmap × Nat × Nat :=
+  ((upsert i (fun c => c.insertRange st.2.1 65535) st.1).1, 0,
+    st.2.2 + (upsert i (fun c => c.insertRange st.2.1 65535) st.1).2)
+
+theorem insertRange_ok (b : Bitmap) (lo hi : Bound) (start en : Nat)
+    (hc : convertRange u32Max lo hi = .ok (start, en)) :
+    insertRange b lo hi =
+      if hi16 start = hi16 en then upsert (hi16 start) (fun c => c.insertRange (lo16 start) (lo16 en)) b
+      else
+        ((upsert (hi16 en) (fun c => c.insertRange 0 (lo16 en))
+          ((List.range' (hi16 start) (hi16 en - hi16 start)).foldl irStep
+            ((findContainerByKey b (hi16 start)).1, lo16 start, 0)).1).1,
+         ((List.range' (hi16 start) (hi16 en - hi16 start)).foldl irStep
+            ((findContainerByKey b (hi16 start)).1, lo16 start, 0)).2.2 +
+          (upsert (hi16 en) (fun c => c.insertRange 0 (lo16 en))
+          ((List.range' (hi16 start) (hi16 en - hi16 start)).foldl irStep
+            ((findContainerByKey b (hi16 start)).1, lo16 start, 0)).1).2) := by
+  unfold insertRange
+  rw [hc]
+  simp only [findModify_eq_upsert]
+  rfl
+
+theorem irFold_spec : ∀ (n k : Nat) (b0 : Bitmap) (low cnt0 : Nat), b0.WF → low < 65536 → k + n < 65536 →
+    ((List.range' k (n + 1)).foldl irStep (b0, low, cnt0)).1.WF ∧
+    elems ((List.range' k (n + 1)).foldl irStep (b0, low, cnt0)).1 =
+      (Spec.insertIv (elems b0) (k * 65536 + low) ((k + n) * 65536 + 65535)).1 ∧
+    ((List.range' k (n + 1)).foldl irStep (b0, low, cnt0)).2.2 =
+      cnt0 + (Spec.insertIv (elems b0) (k * 65536 + low) ((k + n) * 65536 + 65535)).2 := by
+  intro n
+  induction n with
+  | zero =>
+    intro k b0 low cnt0 h hlow hk
+    obtain ⟨u1, u2, u3⟩ := upsert_insertRange_spec b0 h k low 65535 (by omega) (by omega) (by omega)
+    simp only [List.range'_succ, List.range'_zero, List.foldl_cons, List.foldl_nil, irStep, Nat.add_zero]
+    exact ⟨u1, u2, by rw [u3]⟩
+  | succ n ih =>
+    intro k b0 low cnt0 h hlow hk
+    obtain ⟨u1, u2, u3⟩ := upsert_insertRange_spec b0 h k low 65535 (by omega) (by omega) (by omega)
+    rw [List.range'_succ, List.foldl_cons]
+    obtain ⟨j1, j2, j3⟩ := ih (k + 1) (irStep (b0, low, cnt0) k).1 0 (irStep (b0, low, cnt0) k).2.2 u1
+      (by omega) (by omega)
+    have hst : irStep (b0, low, cnt0) k = ((irStep (b0, low, cnt0) k).1, 0, (irStep (b0, low, cnt0) k).2.2) := rfl
+    rw [hst]
+    refine ⟨j1, ?_, ?_⟩
+    · rw [j2]
+      have e1 : (irStep (b0, low, cnt0) k).1 = (upsert k (fun c => c.insertRange low 65535) b0).1 := rfl
+      rw [e1, u2]
+      have := (insertIv_comp (elems b0) (sorted_elems b0 h.dir) (k * 65536 + low) (k * 65536 + 65535)
+        ((k + (n + 1)) * 65536 + 65535) (by omega) (by omega)).1
+      rw [← this]
+      have e2 : (k + 1) * 65536 + 0 = k * 65536 + 65535 + 1 := by omega
+      have e3 : (k + 1 + n) * 65536 + 65535 = (k + (n + 1)) * 65536 + 65535 := by omega
+      rw [e2, e3]
+    · rw [j3]
+      have e1 : (irStep (b0, low, cnt0) k).1 = (upsert k (fun c => c.insertRange low 65535) b0).1 := rfl
+      have e4 : (irStep (b0, low, cnt0) k).2.2 = cnt0 + (upsert k (fun c => c.insertRange low 65535) b0).2 := rfl
+      rw [e1, e4, u2, u3]
+      have := (insertIv_comp (elems b0) (sorted_elems b0 h.dir) (k * 65536 + low) (k * 65536 + 65535)
+        ((k + (n + 1)) * 65536 + 65535) (by omega) (by omega)).2
+      rw [← this]
+      have e2 : (k + 1) * 65536 + 0 = k * 65536 + 65535 + 1 := by omega
+      have e3 : (k + 1 + n) * 65536 + 65535 = (k + (n + 1)) * 65536 + 65535 := by omega
+      rw [e2, e3]; omega
+
 /-- inherent.rs:229 `insert_range`, any `RangeBounds` shape, any number of chunks spanned -/
 theorem insertRange_spec (b : Bitmap) (h : b.WF) (lo hi : Bound)
     (hlo : Bound.le u32Max lo) (hhi : Bound.le u32Max hi) :
     (insertRange b lo hi).1.WF ∧ elems (insertRange b lo hi).1 = (Spec.insertRange u32Max (elems b) lo hi).1 ∧
     (insertRange b lo hi).2 = (Spec.insertRange u32Max (elems b) lo hi).2 := by
-  sorry
+  unfold Spec.insertRange
+  cases hc : convertRange u32Max lo hi with
+  | error e =>
+    rw [convertRange_error u32Max lo hi hlo hhi e hc]
+    unfold insertRange; rw [hc]
+    exact ⟨h, rfl, rfl⟩
+  | ok r =>
+    obtain ⟨st, en⟩ := r
+    rw [convertRange_ok u32Max lo hi hlo hhi st en hc]
+    obtain ⟨hse, hen, _⟩ := Spec.interval_some u32Max lo hi st en (convertRange_ok u32Max lo hi hlo hhi st en hc)
+    have hen' : en < 4294967296 := by unfold u32Max at hen; omega
+    obtain ⟨hsk, hsi⟩ := split_lt st (by omega)
+    obtain ⟨hek, hei⟩ := split_lt en hen'
+    have js := join_split st
+    have je := join_split en
+    simp only []
+    rw [insertRange_ok b lo hi st en hc]
+    by_cases hkk : hi16 st = hi16 en
+    · rw [if_pos hkk]
+      have hle : lo16 st ≤ lo16 en := by unfold hi16 lo16 at *; omega
+      have := upsert_insertRange_spec b h (hi16 st) (lo16 st) (lo16 en) hsk hle hei
+      rw [js] at this
+      have e : hi16 st * 65536 + lo16 en = en := by rw [hkk]; exact je
+      rw [e] at this
+      exact this
+    · rw [if_neg hkk]
+      have hlt : hi16 st < hi16 en := by unfold hi16 lo16 at *; omega
+      obtain ⟨n, hn⟩ : ∃ n, hi16 en - hi16 st = n + 1 := ⟨hi16 en - hi16 st - 1, by unfold hi16 lo16 at *; omega⟩
+      have e2 : hi16 en * 65536 + 0 = (hi16 st + n) * 65536 + 65535 + 1 := by
+        clear js je; unfold hi16 lo16 at *; omega
+      have hkn : hi16 st + n < 65536 := by unfold hi16 lo16 at *; omega
+      have hcomp := insertIv_comp (elems b) (sorted_elems b h.dir) st ((hi16 st + n) * 65536 + 65535) en
+        (by unfold hi16 lo16 at *; omega) (by unfold hi16 lo16 at *; omega)
+      rw [hn]
+      -- the first iteration finds the container `find_container_by_key` may have created
+      have hfirst : (List.range' (hi16 st) (n + 1)).foldl irStep ((findContainerByKey b (hi16 st)).1, lo16 st, 0) =
+          (List.range' (hi16 st) (n + 1)).foldl irStep (b, lo16 st, 0) := by
+        rw [List.range'_succ, List.foldl_cons, List.foldl_cons]
+        congr 1
+        simp only [irStep, upsert_find]
+      rw [hfirst]
+      obtain ⟨f1, f2, f3⟩ := irFold_spec n (hi16 st) b (lo16 st) 0 h hsi hkn
+      obtain ⟨u1, u2, u3⟩ := upsert_insertRange_spec _ f1 (hi16 en) 0 (lo16 en) hek (by omega) hei
+      rw [js] at f2 f3
+      rw [je, e2, f2] at u2 u3
+      refine ⟨u1, ?_, ?_⟩
+      · rw [u2]; exact hcomp.1
+      · rw [u3, f3, ← hcomp.2]; omega
 
 /-- inherent.rs:317 `push_unchecked`: when the caller's promise holds no debug assertion fires (any `dbg`) -/
 theorem pushUnchecked_spec (dbg : Bool) (b : Bitmap) (h : b.WF) (v : Nat) (hv : v < 4294967296)
